@@ -12,48 +12,91 @@ open Evp Evp.Gen.Remover SList
 /-! ### arithmetic of the trigger count -/
 
 theorem dec32_of_ne {x : Int} (h : x ≠ intMin) : dec32 x = x - 1 := by
-  unfold dec32; simp [h]
+  unfold dec32; unfold intMin at h; simp [h]
 
-/-- as long as the count stays above `INT_MIN`, `k` decrements subtract `k` -/
-theorem decN_eq : ∀ (k : Nat) (n : Int), intMin ≤ n - k → decN k n = n - k
-  | 0, n, _ => by simp [decN]
-  | k + 1, n, h => by
-    have hne : n ≠ intMin := by intro e; subst e; omega
-    rw [decN, dec32_of_ne hne, decN_eq k (n - 1) (by omega)]
-    omega
+/-- one call of the wrapper (the regenerated `Gen.Remover.call`, unfolded): the removal is due iff
+    the stored count is `≤ 1`; otherwise the count is decremented, and the decrement is applied to
+    a value `> 1`, so it is the true subtraction (no wrap at `INT_MIN`) -/
+theorem call_eq (c : Int) : call c = if c ≤ 1 then (true, c) else (false, c - 1) := by
+  unfold call
+  split
+  · rfl
+  · rw [dec32_of_ne (by unfold intMin; omega)]
 
-/-- no wrap during the first `k+1` decrements: the test of call `k` (0-based) is true iff
-    `k + 1 ≥ n` -/
-theorem counterDue_iff (n : Int) (k : Nat) (hk : (k : Int) + 1 ≤ n - intMin) :
+theorem call_fst (c : Int) : (call c).1 = decide (c ≤ 1) := by
+  rw [call_eq]; split <;> simp [*]
+
+theorem call_snd (c : Int) : (call c).2 = if c ≤ 1 then c else c - 1 := by
+  rw [call_eq]; split <;> rfl
+
+/-- a call that does not find the removal due has a stored count `> 1` (in particular not
+    `INT_MIN`), and its `dec32` is the true subtraction -/
+theorem call_not_due {c : Int} (h : (call c).1 = false) :
+    c > 1 ∧ c ≠ intMin ∧ (call c).2 = dec32 c ∧ dec32 c = c - 1 := by
+  unfold call at h ⊢
+  split at h
+  · cases h
+  · rename_i hc
+    rw [if_neg hc]
+    have hne : c ≠ intMin := by unfold intMin; omega
+    exact ⟨by omega, hne, rfl, dec32_of_ne hne⟩
+
+/-- `countAfter` peels calls at the front; the same with the last call peeled -/
+theorem countAfter_succ : ∀ (k : Nat) (n : Int), countAfter (k + 1) n = (call (countAfter k n)).2
+  | 0, _ => rfl
+  | k + 1, n => by
+    rw [countAfter, countAfter_succ k]
+    rfl
+
+/-- the stored count after `k` calls: a count `≤ 1` is never changed; a count `n > 1` is `n - k`
+    while that is `> 1` and stays `1` afterwards -/
+theorem countAfter_eq : ∀ (k : Nat) (n : Int),
+    countAfter k n = if n ≤ 1 then n else max (n - k) 1
+  | 0, n => by
+    simp only [countAfter]
+    split <;> omega
+  | k + 1, n => by
+    rw [countAfter, countAfter_eq k, call_snd]
+    by_cases h : n ≤ 1
+    · simp only [h, if_true]
+    · simp only [h, if_false]
+      split <;> omega
+
+/-- the stored count stays a 32-bit `int` -/
+theorem countAfter_range {n : Int} (k : Nat) (h : intMin ≤ n ∧ n ≤ intMax) :
+    intMin ≤ countAfter k n ∧ countAfter k n ≤ intMax := by
+  have hm : intMin = -2147483648 := rfl
+  have hM : intMax = 2147483647 := rfl
+  rw [countAfter_eq]
+  split <;> omega
+
+/-- the test of call `k` (0-based) is true iff `k + 1 ≥ max n 1` - for every `n` and every `k` -/
+theorem counterDue_iff (n : Int) (k : Nat) :
     counterDue n k = true ↔ (k + 1 : Int) ≥ max n 1 := by
-  have h := decN_eq (k + 1) n (by push_cast; omega)
-  simp only [counterDue, testsAfterDecrement, due, if_true, h, decide_eq_true_eq]
-  push_cast
-  omega
+  simp only [counterDue, call_fst, countAfter_eq, decide_eq_true_eq]
+  split <;> omega
 
-theorem counterDue_first {n : Int} (hn : intMin < n) (k : Nat) :
+theorem counterDue_first (n : Int) (k : Nat) :
     (k + 1 < (max n 1).toNat → counterDue n k = false) ∧
     (k + 1 = (max n 1).toNat → counterDue n k = true) := by
-  have hm : intMin = -2147483648 := rfl
   constructor
   · intro h
-    have := counterDue_iff n k (by omega)
+    have := counterDue_iff n k
     cases hc : counterDue n k with
     | false => rfl
     | true => have := this.mp hc; omega
   · intro h
-    exact (counterDue_iff n k (by omega)).mpr (by omega)
+    exact (counterDue_iff n k).mpr (by omega)
 
-/-- with `n = INT_MIN` the first decrement wraps to `INT_MAX`: the test stays false for the
-    first `2^31 - 1` calls -/
-theorem counterDue_intMin (k : Nat) (hk : (k : Int) < intMax) : counterDue intMin k = false := by
-  have hm : intMin = -2147483648 := rfl
-  have hM : intMax = 2147483647 := rfl
-  have h1 : decN (k + 1) intMin = decN k intMax := by
-    rw [decN]; simp [dec32]
-  have h := decN_eq k intMax (by omega)
-  simp only [counterDue, testsAfterDecrement, due, if_true, h1, h, decide_eq_false_iff_not]
-  omega
+/-- a call that does not find the removal due decrements a count `> 1`: `dec32` is never applied
+    to `INT_MIN` -/
+theorem counter_no_overflow (n : Int) (k : Nat) (h : (call (countAfter k n)).1 = false) :
+    countAfter k n > 1 ∧ countAfter k n ≠ intMin ∧
+    countAfter (k + 1) n = countAfter k n - 1 := by
+  obtain ⟨h1, h2, h3, h4⟩ := call_not_due h
+  refine ⟨h1, h2, ?_⟩
+  rw [← h4, ← h3]
+  exact countAfter_succ k n
 
 /-! ### the generic wrapper -/
 
@@ -79,14 +122,14 @@ theorem wrapBeh_not_due {w due inner} {call : Call} {nth : Nat}
     wrapBeh w due inner call nth = inner call nth := by
   unfold wrapBeh; rw [if_neg h]
 
-theorem counter_program {w : Cb} {n : Int} (hn : intMin < n) (inner : Beh) (call : Call) (nth : Nat)
+theorem counter_program {w : Cb} (n : Int) (inner : Beh) (call : Call) (nth : Nat)
     (hcb : call.cb = w) (hen : call.enum = false) :
     (nth + 1 < (max n 1).toNat → counterBeh w n inner call nth = inner call nth) ∧
     (nth + 1 = (max n 1).toNat →
       counterBeh w n inner call nth = .op (.remove call.list call.h) (fun _ => inner call nth)) := by
   rw [counterBeh_eq]
-  exact ⟨fun h => wrapBeh_not_due (by simp [(counterDue_first hn nth).1 h]),
-         fun h => wrapBeh_due ⟨hcb, hen, (counterDue_first hn nth).2 h⟩⟩
+  exact ⟨fun h => wrapBeh_not_due (by simp [(counterDue_first n nth).1 h]),
+         fun h => wrapBeh_due ⟨hcb, hen, (counterDue_first n nth).2 h⟩⟩
 
 theorem cond_program {w : Cb} (cond : Nat → Bool) (inner : Beh) (call : Call) (nth : Nat)
     (hcb : call.cb = w) (hen : call.enum = false) :
@@ -600,7 +643,7 @@ theorem apply_remove_absent {c : SCfg} (H : LInv w lw hw c.lists c.nextId) (busy
 
 /-- the trace invariant for the counter test: at most `max(n,1)` calls, and the test has been
     true exactly when that many calls have been made -/
-theorem counter_trace {n : Int} (hn : intMin < n) : ∀ (tr : List Ev),
+theorem counter_trace (n : Int) : ∀ (tr : List Ev),
     TraceOK w lw hw (fun _ k => counterDue n k) tr →
     countCalls tr w ≤ (max n 1).toNat ∧
     (fired w (fun _ k => counterDue n k) tr = true ↔ countCalls tr w = (max n 1).toNat)
@@ -613,10 +656,10 @@ theorem counter_trace {n : Int} (hn : intMin < n) : ∀ (tr : List Ev),
     · intro h; omega
   | .res r :: tr, h => by
     rw [countCalls_res]
-    exact counter_trace hn tr h
+    exact counter_trace n tr h
   | .call cl :: tr, h => by
     obtain ⟨h1, h2⟩ := h
-    have ih := counter_trace hn tr h2
+    have ih := counter_trace n tr h2
     rw [countCalls_call]
     by_cases hcb : cl.cb = w
     · obtain ⟨_, _, _, hnf⟩ := h1 hcb
@@ -624,7 +667,7 @@ theorem counter_trace {n : Int} (hn : intMin < n) : ∀ (tr : List Ev),
         rcases Nat.lt_or_ge (countCalls tr w) (max n 1).toNat with h | h
         · exact h
         · have := ih.2.mpr (Nat.le_antisymm ih.1 h); rw [hnf] at this; cases this
-      have hd := counterDue_first hn (countCalls tr w)
+      have hd := counterDue_first n (countCalls tr w)
       refine ⟨by simp [hcb]; omega, ?_⟩
       simp only [fired, hcb, beq_self_eq_true, Bool.true_and, hnf, Bool.or_false, if_true]
       constructor
@@ -775,7 +818,7 @@ theorem step_call_present {beh : Beh} {c c' : SCfg} (hs : SCfg.step beh c = some
             show Ev.res _ :: (c.apply _ _).1.trace = _
             rw [apply_trace]
 
-theorem counter_bound {n : Int} (hn : intMin < n) {inner : Beh}
+theorem counter_bound (n : Int) {inner : Beh}
     (hin : ∀ call nth, Clean w lw (inner call nth)) {c0 : SCfg} {p : Prog}
     (hstack : c0.stack = [.prog p]) (hp : Clean w lw p) (hfresh : hw < c0.nextId)
     (hent : ∀ l e, e ∈ c0.lists l → (e.cb = w ∨ e.id = hw) → e.cb = w ∧ e.id = hw ∧ l = lw)
@@ -786,7 +829,7 @@ theorem counter_bound {n : Int} (hn : intMin < n) {inner : Beh}
       AboutToRemove lw hw (SCfg.runN (counterBeh w n inner) k c0).1.stack) := by
   rw [counterBeh_eq]
   have H := winv_runN hin k (winv_init (due := fun _ nth => counterDue n nth) hstack hp hfresh hent hcount)
-  have ht := counter_trace hn _ H.trace
+  have ht := counter_trace n _ H.trace
   exact ⟨ht.1, fun he => H.fired (ht.2.mpr he)⟩
 
 theorem cond_bound (cond : Nat → Bool) {inner : Beh}
@@ -816,7 +859,7 @@ theorem cond_bound (cond : Nat → Bool) {inner : Beh}
     rw [h4] at this; cases this
 
 /-- the bound carries over to the pointer-level Model through the C02 simulation -/
-theorem counter_bound_model {n : Int} (hn : intMin < n) {inner : Beh}
+theorem counter_bound_model (n : Int) {inner : Beh}
     (hin : ∀ call nth, Clean w lw (inner call nth)) {c0 : SCfg} {p : Prog}
     (hstack : c0.stack = [.prog p]) (hp : Clean w lw p) (hfresh : hw < c0.nextId)
     (hent : ∀ l e, e ∈ c0.lists l → (e.cb = w ∨ e.id = hw) → e.cb = w ∧ e.id = hw ∧ l = lw)
@@ -825,7 +868,7 @@ theorem counter_bound_model {n : Int} (hn : intMin < n) {inner : Beh}
     countCalls (MCfg.runN (counterBeh w n inner) k m0).1.trace w ≤ (max n 1).toNat := by
   have := (sim_runN (counterBeh w n inner) k hsim nowrap).1.trace
   rw [this]
-  exact (counter_bound hn hin hstack hp hfresh hent hcount k).1
+  exact (counter_bound n hin hstack hp hfresh hent hcount k).1
 
 /-! ### example programs (non-vacuity examples of Properties/C16.lean) -/
 
@@ -875,3 +918,4 @@ theorem twoCfg_ent (args : List Nat) : ∀ l e, e ∈ (twoCfg args).lists l → 
   · rw [Store.empty_get] at he; cases he
 
 end Evp.Wrap
+
